@@ -1679,7 +1679,8 @@ class ContractionTree:
                     tree.info[node].pop(k, None)
 
         tree.already_optimized.clear()
-        tree.contraction_cores.clear()
+        # the index order of any node can change -> ancestors are stale too
+        tree.reset_contraction_indices()
 
         return tree
 
@@ -1726,7 +1727,8 @@ class ContractionTree:
 
         # reset caches
         tree.already_optimized.clear()
-        tree.contraction_cores.clear()
+        # the index order of any node can change -> ancestors are stale too
+        tree.reset_contraction_indices()
 
         return tree
 
@@ -1946,8 +1948,9 @@ class ContractionTree:
             if progbar:
                 pbar.close()
 
-        # invalidate any compiled contractions
-        tree.contraction_cores.clear()
+        # invalidate any compiled contractions and the explicit index
+        # orders, which ancestors of the reconfigured nodes also depend on
+        tree.reset_contraction_indices()
 
         return tree
 
